@@ -21,6 +21,8 @@
 (* on connection c (or accepted it), saturating at Timeout.  Environment: connections arrive,   *)
 (* the peer sends a fragment of a request ("frag": bytes, but no complete request), a complete  *)
 (* persistent request ("P": HTTP/1.1) or a complete non persistent one ("N": Connection: close),*)
+(* or the first request in pieces: its head announcing a body, later parts / the rest of the   *)
+(* body, with the clock free to advance in between;                                             *)
 (* the peer closes; the clock advances; the socket takes all, some or none of the bytes queued  *)
 (* (b); the application yields a piece of the response body, an empty piece (nothing to send    *)
 (* yet) or ends the response (y).  The server's steps are the public service methods of Valet:  *)
@@ -34,7 +36,8 @@ CONSTANTS NConns,     \* connections 1..NConns
           MaxAdv,     \* the clock advances by 1..MaxAdv
           MaxFrag,    \* request fragments a peer sends per connection
           MaxReq,     \* complete requests a peer sends per connection
-          MaxSteps    \* length of a behaviour (0: unbounded)
+          MaxSteps,   \* length of a behaviour (0: unbounded)
+          Bodies      \* BOOLEAN: the first request of a connection may carry a body that arrives after its head
 
 Conns == 1..NConns
 
@@ -42,15 +45,18 @@ VARIABLES st,      \* "none" | "wait" (at the listening socket) | "open" | "clos
           idle,    \* time since the last byte received / sent (or since it was accepted)
           pers,    \* a persistent request has been parsed on the connection: no idle timeout any more
           cur,     \* "P" / "N": kind of the request being answered; "-" none yet
-          inb,     \* unread input at the socket: "none" | "frag" | "P" | "N"
+          inb,     \* unread input at the socket: "none" | "frag" | "P" | "N" | "headP" | "headN" | "bpart" | "body"
           eof,     \* the peer has closed
           cut,     \* the server has noticed that the peer closed
           nfrag, nreq,   \* fragments / requests sent by the peer so far
+          owed,    \* peer side: "P" / "N": the head of such a request was sent and its body is not complete yet; "-"
+          nbp,     \* peer side: partial body pieces sent
+          half,    \* server side: "P" / "N": the head of such a request has been received, the body has not; "-"
           resp,    \* "none" | "active" (the application is producing the response) | "ended"
           out,     \* response bytes are queued on the connection
           why,     \* why the server closed it: "-" | "idle" | "done" | "cut"
           steps
-vars == <<st, idle, pers, cur, inb, eof, cut, nfrag, nreq, resp, out, why, steps>>
+vars == <<st, idle, pers, cur, inb, eof, cut, nfrag, nreq, owed, nbp, half, resp, out, why, steps>>
 
 Min(a, b) == IF a < b THEN a ELSE b
 Tick == steps' = IF MaxSteps = 0 THEN 0 ELSE steps + 1
@@ -59,29 +65,48 @@ More == MaxSteps = 0 \/ steps < MaxSteps
 Init == /\ st = [c \in Conns |-> "none"] /\ idle = [c \in Conns |-> 0] /\ pers = [c \in Conns |-> FALSE]
         /\ cur = [c \in Conns |-> "-"] /\ inb = [c \in Conns |-> "none"] /\ eof = [c \in Conns |-> FALSE]
         /\ cut = [c \in Conns |-> FALSE] /\ nfrag = [c \in Conns |-> 0] /\ nreq = [c \in Conns |-> 0]
+        /\ owed = [c \in Conns |-> "-"] /\ nbp = [c \in Conns |-> 0] /\ half = [c \in Conns |-> "-"]
         /\ resp = [c \in Conns |-> "none"] /\ out = [c \in Conns |-> FALSE] /\ why = [c \in Conns |-> "-"]
         /\ steps = 0
 
 (* ---------------- environment ---------------- *)
 Arrive(c) == /\ More /\ st[c] = "none" /\ st' = [st EXCEPT ![c] = "wait"] /\ Tick
-             /\ UNCHANGED <<idle, pers, cur, inb, eof, cut, nfrag, nreq, resp, out, why>>
+             /\ UNCHANGED <<idle, pers, cur, inb, eof, cut, nfrag, nreq, owed, nbp, half, resp, out, why>>
 \* the peer sends k: a fragment of a request, or (the rest of) a complete request; one request at a time
 PeerSend(c, k) ==
     /\ More /\ st[c] \in {"wait", "open"} /\ ~eof[c] /\ inb[c] \in {"none", "frag"} /\ resp[c] \in {"none", "ended"}
+    /\ owed[c] = "-"
     /\ IF k = "frag" THEN nfrag[c] < MaxFrag /\ inb[c] = "none" ELSE nreq[c] < MaxReq
     /\ (cur[c] = "N" => FALSE)            \* after a non persistent request the peer sends nothing more
     /\ inb' = [inb EXCEPT ![c] = k]
     /\ nfrag' = [nfrag EXCEPT ![c] = IF k = "frag" THEN @ + 1 ELSE @]
     /\ nreq' = [nreq EXCEPT ![c] = IF k = "frag" THEN @ ELSE @ + 1]
-    /\ Tick /\ UNCHANGED <<st, idle, pers, cur, eof, cut, resp, out, why>>
+    /\ Tick /\ UNCHANGED <<st, idle, pers, cur, eof, cut, owed, nbp, half, resp, out, why>>
+\* the first request of a connection arrives in pieces: the complete head of a persistent / non persistent request that
+\* announces a body (Content-Length), ...
+PeerSendHead(c, k) ==
+    /\ Bodies /\ More /\ st[c] \in {"wait", "open"} /\ ~eof[c] /\ inb[c] \in {"none", "frag"}
+    /\ nreq[c] = 0 /\ nreq[c] < MaxReq /\ owed[c] = "-"
+    /\ inb' = [inb EXCEPT ![c] = IF k = "P" THEN "headP" ELSE "headN"]
+    /\ owed' = [owed EXCEPT ![c] = k]
+    /\ nreq' = [nreq EXCEPT ![c] = @ + 1]
+    /\ Tick /\ UNCHANGED <<st, idle, pers, cur, eof, cut, nfrag, nbp, half, resp, out, why>>
+\* ... then, after the server has read the head, a part of the body (k = "bpart") or all that is left of it (k = "body")
+PeerSendBody(c, k) ==
+    /\ More /\ st[c] = "open" /\ ~eof[c] /\ inb[c] = "none" /\ owed[c] # "-"
+    /\ IF k = "bpart" THEN nbp[c] < 1 ELSE TRUE
+    /\ inb' = [inb EXCEPT ![c] = k]
+    /\ nbp' = [nbp EXCEPT ![c] = IF k = "bpart" THEN @ + 1 ELSE @]
+    /\ owed' = [owed EXCEPT ![c] = IF k = "body" THEN "-" ELSE @]
+    /\ Tick /\ UNCHANGED <<st, idle, pers, cur, eof, cut, nfrag, nreq, half, resp, out, why>>
 PeerClose(c) == /\ More /\ st[c] = "open" /\ ~eof[c] /\ inb[c] = "none" /\ eof' = [eof EXCEPT ![c] = TRUE] /\ Tick
-                /\ UNCHANGED <<st, idle, pers, cur, inb, cut, nfrag, nreq, resp, out, why>>
+                /\ UNCHANGED <<st, idle, pers, cur, inb, cut, nfrag, nreq, owed, nbp, half, resp, out, why>>
 Advance(dt) == /\ More /\ \E c \in Conns : st[c] = "open" /\ idle[c] < Timeout
                /\ idle' = [c \in Conns |-> IF st[c] = "open" THEN Min(Timeout, idle[c] + dt) ELSE idle[c]]
-               /\ Tick /\ UNCHANGED <<st, pers, cur, inb, eof, cut, nfrag, nreq, resp, out, why>>
+               /\ Tick /\ UNCHANGED <<st, pers, cur, inb, eof, cut, nfrag, nreq, owed, nbp, half, resp, out, why>>
 
 (* ---------------- the server's steps, as functions on a state record ---------------- *)
-State == [st |-> st, idle |-> idle, pers |-> pers, cur |-> cur, inb |-> inb, cut |-> cut, resp |-> resp, out |-> out, why |-> why]
+State == [st |-> st, idle |-> idle, pers |-> pers, cur |-> cur, inb |-> inb, cut |-> cut, half |-> half, resp |-> resp, out |-> out, why |-> why]
 
 \* serviceConnects: accept what waits; drop what the peer closed; drop what has been idle for the timeout
 Due(s, c) == s.st[c] = "open" /\ Timeout > 0 /\ ~s.pers[c] /\ s.idle[c] >= Timeout
@@ -92,15 +117,21 @@ Connects(s) ==
               !.why = [c \in Conns |-> IF drop(c) THEN (IF s.cut[c] THEN "cut" ELSE "idle") ELSE s.why[c]]]
 
 \* receiving and parsing: bytes read restart the idle period; a complete request starts a response; reading the end of
-\* the stream is no activity
+\* the stream is no activity.  checkPersisted "Checks headers to determine if connection should be kept open until client
+\* closes it": persistence is a matter of the head, so from the moment the head of a persistent request has been
+\* received the connection is exempt from the idle timer, whether or not its body has arrived
 Receives(s) ==
     LET got(c) == s.st[c] = "open" /\ s.inb[c] # "none"
-        req(c) == got(c) /\ s.inb[c] \in {"P", "N"} IN
+        req(c) == got(c) /\ s.inb[c] \in {"P", "N"}                  \* a complete request without body
+        hd(c) == got(c) /\ s.inb[c] \in {"headP", "headN"}           \* the head of a request with a body
+        bd(c) == got(c) /\ s.inb[c] = "body"                          \* the rest of the body: the request is complete
+        kind(c) == IF s.inb[c] \in {"P", "headP"} THEN "P" ELSE "N" IN
     [s EXCEPT !.idle = [c \in Conns |-> IF got(c) THEN 0 ELSE s.idle[c]],
               !.inb = [c \in Conns |-> IF got(c) THEN "none" ELSE s.inb[c]],
-              !.cur = [c \in Conns |-> IF req(c) THEN s.inb[c] ELSE s.cur[c]],
-              !.pers = [c \in Conns |-> s.pers[c] \/ (req(c) /\ s.inb[c] = "P")],
-              !.resp = [c \in Conns |-> IF req(c) THEN "active" ELSE s.resp[c]],
+              !.cur = [c \in Conns |-> IF req(c) THEN s.inb[c] ELSE IF bd(c) THEN s.half[c] ELSE s.cur[c]],
+              !.pers = [c \in Conns |-> s.pers[c] \/ ((req(c) \/ hd(c)) /\ kind(c) = "P")],
+              !.half = [c \in Conns |-> IF hd(c) THEN kind(c) ELSE IF bd(c) THEN "-" ELSE s.half[c]],
+              !.resp = [c \in Conns |-> IF req(c) \/ bd(c) THEN "active" ELSE s.resp[c]],
               !.cut = [c \in Conns |-> s.cut[c] \/ (s.st[c] = "open" /\ ~got(c) /\ eof[c])]]
 
 \* serviceReps: the application yields y[c] for every response in progress; z[c]: a finished non persistent connection
@@ -126,8 +157,8 @@ Transmits(s, b) ==
 TransmitsOK(s, b) == \A c \in Conns : IF Sendable(s, c) THEN b[c] \in {"all", "some", "none"} ELSE b[c] = "na"
 
 Set(s) == /\ st' = s.st /\ idle' = s.idle /\ pers' = s.pers /\ cur' = s.cur /\ inb' = s.inb /\ cut' = s.cut
-          /\ resp' = s.resp /\ out' = s.out /\ why' = s.why
-          /\ Tick /\ UNCHANGED <<eof, nfrag, nreq>>
+          /\ half' = s.half /\ resp' = s.resp /\ out' = s.out /\ why' = s.why
+          /\ Tick /\ UNCHANGED <<eof, nfrag, nreq, owed, nbp>>
 
 Ys == [Conns -> {"data", "empty", "end", "na"}]
 Bs == [Conns -> {"all", "some", "none", "na"}]
@@ -145,6 +176,8 @@ ServiceAll(y, b, z) ==
 
 Next == \/ \E c \in Conns : Arrive(c)
         \/ \E c \in Conns, k \in {"frag", "P", "N"} : PeerSend(c, k)
+        \/ \E c \in Conns, k \in {"P", "N"} : PeerSendHead(c, k)
+        \/ \E c \in Conns, k \in {"bpart", "body"} : PeerSendBody(c, k)
         \/ \E c \in Conns : PeerClose(c)
         \/ \E dt \in 1..MaxAdv : Advance(dt)
         \/ ServiceConnects \/ ServiceReceives
@@ -159,6 +192,8 @@ TypeOK == \A c \in Conns : idle[c] \in 0..Timeout /\ st[c] \in {"none", "wait", 
 NoEarlyDrop == [][\A c \in Conns : (st[c] = "open" /\ st'[c] = "closed" /\ why'[c] = "idle")
                                       => (Timeout > 0 /\ idle[c] >= Timeout /\ ~pers[c])]_vars
 PersistentNeverIdleDropped == \A c \in Conns : pers[c] => why[c] # "idle"
+\* in particular while the body of a persistent request is still outstanding
+HeadOfPersistentExempts == \A c \in Conns : half[c] = "P" => (pers[c] /\ why[c] # "idle")
 \* a connection is only ever closed for a reason
 ClosedForAReason == \A c \in Conns : st[c] = "closed" <=> why[c] # "-"
 \* activity restarts the idle period: whenever input is consumed or queued bytes leave, idle is 0 afterwards
